@@ -29,10 +29,12 @@ fn runner(seed: u8) -> TestRunner {
 fn evaluator(n: usize) -> Result<usize, String> {
     let mut r = runner(7);
     let cfg = c07::fol_cfg();
-    let strat = (g::guarded_formula(&cfg), g::raw_interp(8, cfg.fcs.len(), 2, 5), proptest::collection::vec(proptest::num::u16::ANY, 6));
+    let strat = (g::guarded_formula(&cfg), g::formula(&cfg), g::raw_interp(8, cfg.fcs.len(), 2, 5), proptest::collection::vec(proptest::num::u16::ANY, 6));
     let mut compared = 0;
-    for _ in 0..n {
-        let (f, raw, envc) = strat.new_tree(&mut r).map_err(|e| e.to_string())?.current();
+    for k in 0..n {
+        let (fg, fu, raw, envc) = strat.new_tree(&mut r).map_err(|e| e.to_string())?.current();
+        // every third formula is unguarded (exercises the complete representatives of pure equality logic)
+        let f = if k % 3 == 0 { fu } else { fg };
         let fm = ir::lower(&f);
         let mut sig = ir::Signature::default();
         fm.signature(&mut sig);
@@ -180,7 +182,16 @@ fn tptp4x(n: usize) -> Result<usize, String> {
 
 /// hand-computed truth values
 fn tables() -> Result<usize, String> {
-    let cases: [(&str, &[(&str, &[&str])], bool); 10] = [
+    let cases: [(&str, &[(&str, &[&str])], bool); 18] = [
+        // complete representatives for pure equality logic (no guard bounds the variable)
+        ("exists X (p(X) <-> not q(X))", &[("p", &["1"]), ("q", &["1"])], false),
+        ("exists X (p(X) <-> not q(X))", &[("p", &["1"]), ("q", &["2"])], true),
+        ("forall X (p(X) or not p(X))", &[("p", &["1"])], true),
+        ("exists X Y (X != Y and not p(X) and not p(Y))", &[("p", &["1"])], true),
+        ("forall X p(X)", &[("p", &["1", "a", "#inf", "#sup"])], false),
+        ("not exists X (not p(X) and not q(X))", &[("p", &["1"]), ("q", &["a"])], false),
+        ("forall X$i exists Y$i (X$i != Y$i and not p(Y$i))", &[("p", &["1", "2"])], true),
+        ("exists X$s forall Y (p(Y) -> X$s != Y)", &[("p", &["a", "b"])], true),
         ("exists X (p(X) and X > 1)", &[("p", &["1", "2"])], true),
         ("forall X (p(X) -> X > 1)", &[("p", &["1", "2"])], false),
         ("exists X$i (X$i * 2 = 6 and p(X$i))", &[("p", &["3"])], true),
